@@ -44,7 +44,12 @@ Inductive obs :=
 | OHold (c : rclass) (out : store) (held : bool)
 | ODelCur (c : rclass) (cf : option conflict).
 
-Record c11_case := mk_c11 { c_eng : eng; c_steps : list (sop * obs); c_final : store }.
+(* mk_c11: an operation sequence from the emptied engine, the answer to every step, the raw contents at the end.
+   KBigBatch: one batch of n Puts on distinct keys of keylen bytes, followed (failing = true) by a CAS on a key that
+   does not exist; the answer's class and how many of the n keys are stored afterwards.  The keys are not printed. *)
+Inductive c11_case :=
+| mk_c11 (c_eng : eng) (c_steps : list (sop * obs)) (c_final : store)
+| KBigBatch (e : eng) (n keylen : N) (failing : bool) (c : rclass) (visible : N).
 
 (* ---------- running a sequence on an adapter model ---------- *)
 
@@ -125,10 +130,22 @@ Definition obs_eqb (x y : obs) : bool :=
   | _, _ => false
   end.
 
+(* The adapter models idealise the engine as unbounded: on n distinct Puts followed by a CAS on a missing key every
+   model answers "condition failed" and stores nothing; without the CAS it answers ok and stores all n
+   (Proofs/Adapters.v: big_batch_model).  An engine may instead refuse a transaction for its size (Badger:
+   ErrTxnTooBig): class other, and then nothing may be stored. *)
+Definition big_check (failing : bool) (n : N) (c : rclass) (visible : N) : bool :=
+  (if failing then rclass_eqb c RCond && (visible =? 0) else rclass_eqb c ROk && (visible =? n))
+  || (rclass_eqb c ROther && (visible =? 0)).
+
 Definition c11_check (c : c11_case) : bool :=
-  let A := adapter_of (c_eng c) in
-  let '(sf, obs) := a_run A (a_init A) None (map fst (c_steps c)) in
-  list_eqb obs_eqb obs (map snd (c_steps c)) && store_eqb (a_dump A sf) (c_final c).
+  match c with
+  | mk_c11 e steps final =>
+      let A := adapter_of e in
+      let '(sf, obs) := a_run A (a_init A) None (map fst steps) in
+      list_eqb obs_eqb obs (map snd steps) && store_eqb (a_dump A sf) final
+  | KBigBatch _ n _ failing c visible => big_check failing n c visible
+  end.
 
 (* ---------- the property: the observation against the contract, under the C11 projection ---------- *)
 
@@ -240,8 +257,21 @@ Fixpoint o_run (e : eng) (cs : cstore) (h : option item) (steps : list (sop * ob
       end
   end.
 
+(* all or nothing, whatever the size: an error of any class means that none of the batch is stored; success means
+   all of it is; and a batch whose condition fails may not succeed *)
+Definition big_oracle (failing : bool) (n : N) (c : rclass) (visible : N) : option N :=
+  match c with
+  | ROk => ok_if (negb failing && (visible =? n))
+  | RPanic => Some 0
+  | _ => ok_if (visible =? 0)
+  end.
+
 Definition c11_oracle (c : c11_case) : option N :=
-  match o_run (c_eng c) (cs_of []) None (c_steps c) with
-  | inl cs => ok_if (store_eqb (st cs) (c_final c))
-  | inr code => Some code
+  match c with
+  | mk_c11 e steps final =>
+      match o_run e (cs_of []) None steps with
+      | inl cs => ok_if (store_eqb (st cs) final)
+      | inr code => Some code
+      end
+  | KBigBatch _ n _ failing c visible => big_oracle failing n c visible
   end.
